@@ -316,6 +316,36 @@ func rC04OptionalMin(w *World, r *Report) {
 				minv = v
 			}
 		}
+		// table-driven form: both values are fields of one entry of a package-level table indexed by the kind
+		if tab, fo, ok := tableField(w, st.Val); ok && minv != nil {
+			if tab2, fm, ok2 := tableField(w, minv); ok2 && tab2 == tab {
+				entries, why := globalMapLiteral(w, tab)
+				if why != "" {
+					ru.Undecided("optional-kind/table", w.IPos(st), "per-kind table "+tab.Name()+" not understood: "+why)
+					continue
+				}
+				n := 0
+				for _, e := range entries {
+					if c, isC := e.fields[fo].(*ssa.Const); !isC || c.Value == nil || c.Value.String() != "true" {
+						continue
+					}
+					n++
+					mk, isK := int64(0), true
+					if mv, has := e.fields[fm]; has {
+						mk, isK = constInt(mv)
+					}
+					if isK && mk == 0 {
+						ru.OK("optional-kind/MinArgs", e.pos, "table entry sets "+fo+" and "+fm+" = 0")
+					} else {
+						ru.Bad("optional-kind/MinArgs", e.pos, "table entry sets "+fo+" but "+fm+" is not 0: the mandatory loop would take `--` as the optional value")
+					}
+				}
+				if n == 0 {
+					ru.Bad("optional-kind/MinArgs", w.IPos(st), "no entry of the per-kind table is optional")
+				}
+				continue
+			}
+		}
 		k, ok := int64(0), false
 		if minv != nil {
 			k, ok = constInt(minv)
@@ -337,4 +367,119 @@ func rC04OptionalMin(w *World, r *Report) {
 		}
 		ru.Bad("MinArgs-writer/"+n, w.IPos(u.Instr), "unexpected writer of MinArgs")
 	}
+}
+
+// ---- package-level tables (map literals initialised once) -------------------------------------------------------------
+
+type mapLitEntry struct {
+	key    ssa.Value
+	fields map[string]ssa.Value
+	pos    string
+}
+
+// tableField: v is `spec.f` where spec := table[key] and table is a package-level map of the library.
+func tableField(w *World, v ssa.Value) (*ssa.Global, string, bool) {
+	u, ok := v.(*ssa.UnOp)
+	if !ok || u.Op != token.MUL {
+		return nil, "", false
+	}
+	fa, ok := u.X.(*ssa.FieldAddr)
+	if !ok {
+		return nil, "", false
+	}
+	var lk *ssa.Lookup
+	switch x := fa.X.(type) {
+	case *ssa.Alloc:
+		for _, sv := range storesInto(x) {
+			if l, ok := sv.(*ssa.Lookup); ok {
+				lk = l
+			} else {
+				return nil, "", false
+			}
+		}
+	}
+	if lk == nil {
+		return nil, "", false
+	}
+	ld, ok := lk.X.(*ssa.UnOp)
+	if !ok || ld.Op != token.MUL {
+		return nil, "", false
+	}
+	g, ok := ld.X.(*ssa.Global)
+	if !ok || g.Pkg == nil || w.Pkgs[g.Pkg.Pkg.Path()] == nil {
+		return nil, "", false
+	}
+	return g, fieldOfAddr(fa).Name(), true
+}
+
+// globalMapLiteral reads the entries of a package-level map that is built by a composite literal in the package
+// initialiser and never written anywhere else.
+func globalMapLiteral(w *World, g *ssa.Global) ([]mapLitEntry, string) {
+	initFn := g.Pkg.Func("init")
+	if initFn == nil {
+		return nil, "no package initialiser"
+	}
+	var mk ssa.Value
+	for _, fn := range append([]*ssa.Function{initFn}, w.Funcs...) {
+		bad := ""
+		eachInstr(fn, func(in ssa.Instruction) {
+			switch x := in.(type) {
+			case *ssa.Store:
+				if x.Addr == ssa.Value(g) {
+					if fn != initFn || mk != nil {
+						bad = "the table is assigned outside its initialiser (" + w.IPos(in) + ")"
+					}
+					mk = x.Val
+				}
+			case *ssa.MapUpdate:
+				if ld, ok := x.Map.(*ssa.UnOp); ok && ld.X == ssa.Value(g) {
+					bad = "the table is updated at " + w.IPos(in)
+				}
+			}
+		})
+		if bad != "" {
+			return nil, bad
+		}
+	}
+	if _, ok := mk.(*ssa.MakeMap); !ok {
+		return nil, "the table is not a map literal"
+	}
+	var out []mapLitEntry
+	why := ""
+	eachInstr(initFn, func(in ssa.Instruction) {
+		mu, ok := in.(*ssa.MapUpdate)
+		if !ok || mu.Map != mk {
+			return
+		}
+		e := mapLitEntry{key: mu.Key, fields: map[string]ssa.Value{}, pos: w.IPos(mu)}
+		ld, ok := mu.Value.(*ssa.UnOp)
+		if !ok {
+			why = "entry value is not a struct literal"
+			return
+		}
+		a, ok := ld.X.(*ssa.Alloc)
+		if !ok {
+			why = "entry value is not a struct literal"
+			return
+		}
+		if refs := a.Referrers(); refs != nil {
+			for _, r := range *refs {
+				if fa, ok := r.(*ssa.FieldAddr); ok && fa.Referrers() != nil {
+					for _, r2 := range *fa.Referrers() {
+						if st, ok := r2.(*ssa.Store); ok && st.Addr == ssa.Value(fa) {
+							e.fields[fieldOfAddr(fa).Name()] = st.Val
+						}
+					}
+				}
+			}
+		}
+		out = append(out, e)
+	})
+	if why != "" {
+		return nil, why
+	}
+	if len(out) == 0 {
+		return nil, "no entries"
+	}
+	return out, ""
 }
